@@ -222,6 +222,26 @@ func (x *c13Exec) inline(st *c13State, fr *c13Fr, call *ast.CallExpr, fn *types.
 		}
 	}
 	nfr := &c13Fr{pk: pk, info: pk.TypesInfo, fn: fn, depth: fr.depth + 1, parent: fr}
+	if sig != nil {
+		nfr.res = sig.Results()
+	}
+	if len(call.Args) == len(args) && !ellipsis {
+		// arguments of concrete type passed for interface parameters
+		args = x.convertAll(args, c13SrcTypes(fr.info, call.Args, len(args)), func(i int) types.Type {
+			if sig == nil || sig.Params().Len() == 0 {
+				return nil
+			}
+			if i < sig.Params().Len()-1 || !sig.Variadic() && i < sig.Params().Len() {
+				return sig.Params().At(i).Type()
+			}
+			if sig.Variadic() {
+				if sl, ok := sig.Params().At(sig.Params().Len() - 1).Type().(*types.Slice); ok {
+					return sl.Elem()
+				}
+			}
+			return nil
+		})
+	}
 	if fn == nil {
 		nfr.fn = fr.fn // a function literal runs in the frame of its function
 		nfr.parent = fr.parent
